@@ -313,11 +313,15 @@ pub fn run(out: &mut Out, tier: &str, rng: &mut Rng) {
         }
     }
     // ---- e2e: the real glonax-input reading a FIFO (start-up state, failsafe registration, forwarding)
-    if thorough && !missing {
+    if !missing {
         for mode in MODES {
             for fm in [false, true] {
-                for rep in 0..4 {
-                    let n = 20 + rng.below(120) as usize;
+                // quick: one short run per mode (start-up state and the session it registers); thorough: 4 x 2 longer ones
+                if !thorough && fm {
+                    continue;
+                }
+                for rep in 0..(if thorough { 4 } else { 1 }) {
+                    let n = if thorough { 20 + rng.below(120) as usize } else { 12 };
                     let mut recs: Vec<[u8; 8]> = vec![];
                     if rep % 2 == 1 {
                         recs.push(record(1, 1, 1, 0));
